@@ -53,6 +53,7 @@ LZERO == -1073741824
 LMeasured(x) == x > -1073741823 /\ x < 1073741823
 Max2(a, b) == IF a >= b THEN a ELSE b
 LastChopOK(tail2, norm2, eps, dm1) == tail2 = LZERO \/ tail2 <= 2 * eps + norm2 - dm1 + 2 * CL + LSLACK
-SmallCrit(crit, eps) == crit = LZERO \/ crit < eps + CL + LSLACK
+\* (a criterion that is not a number - 0/0 for an exactly zero right-hand side, where "relative" has no meaning - is not measured)
+SmallCrit(crit, eps) == crit = LZERO \/ ~LMeasured(crit) \/ crit < eps + CL + LSLACK
 ResTruncOK(restr, resnew, eps, sqrtd) == restr = LZERO \/ restr <= Max2(eps - sqrtd, resnew) + CL + LSLACK
 =============================================================================
